@@ -16,7 +16,7 @@ EXPLANATION = (
     "lexicographic successor of (iteration, plate) with plate < batch_size; (R4) the validity predicate and the "
     "returned metadata read the same completion marker and an incomplete directory raises naming it; (R5) each "
     "launched step receives the screen produced by its immediate predecessor and the model files / exclusions of its "
-    "own iteration. Crash-point enumeration over the pipeline run is a model-checking question and not claimed.")
+    "own iteration; (R6) the scan visits iteration and plate directories in the order of their integer index (sort key returning int); (R7) evaluated abstractly with both screens published, get_screen_from_job_output returns the advanced screen. Crash-point enumeration over the pipeline run is a model-checking question and not claimed.")
 RULES = {
     "R1": "who-may-delete: only rmtree(join(output_dir, iter_<next I>, plate_<next J>))",
     "R2": "record coherence of the scan: record variables are updated together; no iteration skips the commit block without raising",
@@ -28,7 +28,7 @@ RULES = {
 }
 MIN = {"R1": 2, "R2": 3, "R3": 1, "R4": 2, "R5": 4, "R6": 2, "R7": 1}
 TRUSTED = ["glob/os.path semantics", "the pipeline publishes screen_metadata.json last (completion marker) - not checked here"]
-TECHNIQUE = "who-may-call scan, co-definition (torn update) analysis on the CFG, integer relational normal forms"
+TECHNIQUE = "who-may-call scan, co-definition (torn update) analysis on the CFG, integer relational normal forms, abstract evaluation of the file-preference function under a stated hypothesis"
 LEVEL_TEXT = ("Two necessary conditions of crash-safe resumption are shape facts of the scan: it never deletes a completed "
               "step's directory and never reports a torn (index, metadata, directory) record. Both hold or fail for every "
               "directory state at once - including the empty iteration directory left by a crash between two makedirs that "
